@@ -31,6 +31,12 @@ class ViewsChecker(Checker):
         if got != want:
             bad = [q[:10] for q, g, w in zip(query, got, want) if g != w]
             raise world.viol('has_objects', f'has_objects wrong for {bad} (want present={len(keys)} absent={len(absent)})')
+        # the answer is positional: one entry per requested position, also when a key is requested more than once
+        repeated = keys[:2] + absent[:1] + keys[:1] + absent[:1] + keys[-1:]
+        got = cont.has_objects(repeated)
+        want = [k in model for k in repeated]
+        if got != want:
+            raise world.viol('has_objects-repeated', f'has_objects({[k[:6] for k in repeated]}) = {got}, expected {want}')
         # single reads
         for key in keys:
             try:
